@@ -1087,6 +1087,9 @@ class Converter:
             self._fail(stmt, "Multi-assignment not supported.")
         lhs = targets[0]
         rhs = stmt.value
+        if rhs is None:
+            # "x: FLOAT" declares nothing ONNX can represent: there is no value to bind
+            self._fail(stmt, "Annotated declaration without a value is not supported.")
         if isinstance(rhs, ast.Tuple):
             # Assignments of the form "... = Expression1, Expression2"
             if not isinstance(lhs, ast.Tuple):
